@@ -1113,4 +1113,19 @@ pub struct MPMCFutSender<T> {""")]),
 
     V('poll-park-no-prod-notify', 'C14', ['P11h'], [E(MQ, """                        self.prod_wait.notify_all();
                         return Ok(Async::NotReady);""", """                        return Ok(Async::NotReady);""")]),
+
+    V('set-epoch-swap', 'C13', ['W10'], [E('src/atomicsignal.rs', "let prev = self.flags.fetch_or(UPDATE_EPOCH, ord);", "let prev = self.flags.swap(UPDATE_EPOCH, ord);")]),
+    V('uniiter-nonblocking', 'C07', ['S3'], [E('src/broadcast.rs', """impl<R, F: FnMut(&T) -> R, T: Clone + Sync> Iterator for BroadcastUniIter<R, F, T> {
+    type Item = R;
+
+    #[inline(always)]
+    fn next(&mut self) -> Option<R> {
+        let opref = &mut self.op;
+        match self.recv.recv_view(|v| opref(v)) {""", """impl<R, F: FnMut(&T) -> R, T: Clone + Sync> Iterator for BroadcastUniIter<R, F, T> {
+    type Item = R;
+
+    #[inline(always)]
+    fn next(&mut self) -> Option<R> {
+        let opref = &mut self.op;
+        match self.recv.try_recv_view(|v| opref(v)) {""")]),
 ]
